@@ -80,6 +80,10 @@ type frame struct {
 	callInstr        ssa.Instruction
 }
 
+// nativeFn is an engine-implemented function value that interpreted code may call (callbacks of
+// stubbed library functions).
+type nativeFn func(fr *frame, args []value) value
+
 // boundMethod is an interface method value x.M (closure over receiver).
 type boundMethod struct {
 	fn   *ssa.Function
@@ -543,6 +547,8 @@ func (i *interpreter) call(caller *frame, callpos token.Pos, fn value, args []va
 		return caller.callBuiltin(callpos, fn, args, ci)
 	case *boundMethod:
 		return i.callSSA(caller, callpos, fn.fn, append([]value{fn.recv}, args...), nil, site)
+	case nativeFn:
+		return fn(caller, args)
 	}
 	panic(fmt.Sprintf("cannot call %T", fn))
 }
